@@ -169,6 +169,8 @@ class RecurrencePlot(Cached):
         """The number of state vectors (number of lines and rows) of the RP."""
         self.R = None
         """The recurrence matrix."""
+        self._mut_R: int = 0
+        """mutation count tracking the recurrence matrix"""
 
         self._mut_embedding: int = 0
         if (self.dim is not None) and (self.tau is not None):
@@ -569,6 +571,7 @@ class RecurrencePlot(Cached):
             recurrence[:, self.missing_value_indices] = 0
 
         self.R = recurrence
+        self._mut_R += 1
 
     def set_fixed_threshold_std(self, threshold_std):
         """
@@ -607,6 +610,7 @@ class RecurrencePlot(Cached):
         recurrence = np.zeros((n_time, n_time), dtype="int8")
         recurrence[distance < threshold] = 1
         self.R = recurrence
+        self._mut_R += 1
 
     def set_fixed_local_recurrence_rate(self, local_recurrence_rate):
         """
@@ -636,6 +640,7 @@ class RecurrencePlot(Cached):
             #  Thresholding the distance matrix for column i
             recurrence[i, distance[i, :] < local_threshold] = 1
         self.R = recurrence
+        self._mut_R += 1
 
     def set_adaptive_neighborhood_size(self, adaptive_neighborhood_size,
                                        order=None):
@@ -680,6 +685,7 @@ class RecurrencePlot(Cached):
         _set_adaptive_neighborhood_size(n_time, adaptive_neighborhood_size,
                                         sorted_neighbors, order, recurrence)
         self.R = recurrence
+        self._mut_R += 1
 
     @staticmethod
     def threshold_from_recurrence_rate(distance, recurrence_rate: float):
@@ -843,7 +849,7 @@ class RecurrencePlot(Cached):
     #
 
     @Cached.method(attrs=(
-        "metric", "threshold", "missing_values", "sparse_rqa"))
+        "metric", "threshold", "missing_values", "sparse_rqa", "_mut_R"))
     def diagline_dist(self):
         """
         Return the :index:`frequency distribution of diagonal line lengths
@@ -1068,7 +1074,7 @@ class RecurrencePlot(Cached):
     #
 
     @Cached.method(attrs=(
-        "metric", "threshold", "missing_values", "sparse_rqa"))
+        "metric", "threshold", "missing_values", "sparse_rqa", "_mut_R"))
     def vertline_dist(self):
         """
         Return the :index:`frequency distribution of vertical line lengths
